@@ -36,7 +36,7 @@ func (c07) Batches(tier string, seed uint64) []core.Batch {
 	b = append(b, spread("raw", 8, tierN(tier, 6000, 50000))...)
 	b = append(b, spread("huge", tierN(tier, 1, 4), 1)...)
 	b = append(b, spread("corpus", 4, 0)...) // this machine's dpkg database, in slices of 40 stanzas
-	return b
+	return append(b, conc(tierN(tier, 40, 300), "doc")...)
 }
 
 func (c07) Mandatory(tier string) []string {
@@ -540,6 +540,9 @@ func corrupt(r *core.Rand, text string) string {
 }
 
 func (p c07) RunBatch(t *core.T, b core.Batch) {
+	if concDispatch(p, t, b) {
+		return
+	}
 	r := t.Rand(b.Name, fmt.Sprint(b.Arg))
 	switch b.Name {
 	case "corpus":
